@@ -1,5 +1,317 @@
 import SpowtdModel.Model.Classify
-/- Helper lemmas for the classify-level theorems (Props/C01, C02Classify, C03Classify, C04Classify, C07). -/
+import SpowtdModel.Lemmas.ClassifyBasic
+import SpowtdModel.Lemmas.ClassifyData
+import SpowtdModel.Lemmas.ClassifyGS
+/- Helper lemmas for the classify-level theorems (Props/C01, C02Classify, C03Classify, C04Classify, C07).
+   The index-level material is in `ClassifyBasic`/`ClassifyGS`, the dataset plumbing in `ClassifyData`;
+   this file combines them: a stretch's recorded rows in terms of its runs, index ranges, the shift. -/
 namespace Spowtd
+
+variable {α : Type} [Num α]
+
+/-- epochs, levels, rain of one stretch -/
+def esOf (db : Loaded α) (l : Nat) : List Int := (samplesOf db l).map (·.1)
+def zsOf (db : Loaded α) (l : Nat) : List α := (samplesOf db l).map (·.2.1)
+def rsOf (db : Loaded α) (l : Nat) : List α := (samplesOf db l).map (·.2.2)
+
+omit [Num α] in
+theorem esOf_length (db : Loaded α) (l : Nat) : (esOf db l).length = (samplesOf db l).length :=
+  List.length_map _
+omit [Num α] in
+theorem zsOf_length (db : Loaded α) (l : Nat) : (zsOf db l).length = (samplesOf db l).length :=
+  List.length_map _
+omit [Num α] in
+theorem rsOf_length (db : Loaded α) (l : Nat) : (rsOf db l).length = (samplesOf db l).length :=
+  List.length_map _
+
+/-! ### index ranges -/
+
+theorem idxPairs_range (pick : List Nat → Nat) (s j : α) (dt : Int) (zeta rain : List α)
+    (q : (Nat × Nat) × (Nat × Nat)) (hq : q ∈ idxPairs pick (heavy s rain) (jumps j dt zeta)) :
+    q.1.1 < q.1.2 ∧ q.1.2 ≤ rain.length ∧ q.2.1 < q.2.2 ∧ q.2.2 < zeta.length := by
+  obtain ⟨h1, h2, _⟩ := idxPairs_sound pick _ _ q hq
+  have a1 := (mem_trueRuns _ q.1.1 q.1.2).1 h1
+  have a2 := (mem_trueRuns _ q.2.1 q.2.2).1 h2
+  rw [heavy_length] at a1
+  rw [jumps_length] at a2
+  omega
+
+theorem interstorms_range (fj w : List Bool) (ab : Nat × Nat) (h : ab ∈ interstormRuns fj w) :
+    ab.1 + 2 ≤ ab.2 ∧ ab.2 ≤ min fj.length w.length := by
+  have := (mem_interstormRuns fj w ab.1 ab.2).1 h
+  rw [interstormFlag_length] at this
+  exact ⟨this.1, this.2.1⟩
+
+/-! ### the rows of one stretch -/
+
+theorem stretchOf_flags (pick : List Nat → Nat) (s j : α) (db : Loaded α) (l : Nat) :
+    (stretchOf pick s j db l).flags =
+      List.zipWith (fun t f => (t, f)) (esOf db l)
+        (classifyIdx pick s j db.step (zsOf db l) (rsOf db l)).flags := rfl
+
+theorem stretchOf_interstorms (pick : List Nat → Nat) (s j : α) (db : Loaded α) (l : Nat) :
+    (stretchOf pick s j db l).interstorms =
+      (interstormRuns (flagJump j db.step (zsOf db l)) (wet (rsOf db l))).map
+        (fun ab => ((esOf db l).getD ab.1 0, (esOf db l).getD (ab.2 - 1) 0)) := rfl
+
+theorem stretchOf_pairs (pick : List Nat → Nat) (s j : α) (db : Loaded α) (l : Nat) :
+    (stretchOf pick s j db l).pairs =
+      (idxPairs pick (heavy s (rsOf db l)) (jumps j db.step (zsOf db l))).map
+        (fun p => (((esOf db l).getD p.1.1 0, (esOf db l).getD (p.1.2 - 1) 0 + db.step),
+                   ((esOf db l).getD p.2.1 0, (esOf db l).getD p.2.2 0))) := rfl
+
+theorem stretchOf_strict (pick : List Nat → Nat) (s j : α) (db : Loaded α) (l : Nat) :
+    (stretchOf pick s j db l).strict =
+      (classifyIdx pick s j db.step (zsOf db l) (rsOf db l)).strict := rfl
+
+theorem classifyStretch_eq (pick : List Nat → Nat) (s j : α) (db : Loaded α) (l : Nat) :
+    classifyStretch pick s j db l =
+      if (samplesOf db l).isEmpty then .error .noSamples
+      else if !uniformB (esOf db l) then .error .nonuniform
+      else .ok (stretchOf pick s j db l) := rfl
+
+/-! ### shift -/
+
+omit [Num α] in
+theorem esOf_shift (db : Loaded α) (k : Int) (l : Nat) :
+    esOf (db.shift k) l = (esOf db l).map (· + k) := by
+  unfold esOf
+  rw [samplesOf_shift, List.map_map, List.map_map]
+  rfl
+
+omit [Num α] in
+theorem zsOf_shift (db : Loaded α) (k : Int) (l : Nat) : zsOf (db.shift k) l = zsOf db l := by
+  unfold zsOf
+  rw [samplesOf_shift, List.map_map]
+  rfl
+
+omit [Num α] in
+theorem rsOf_shift (db : Loaded α) (k : Int) (l : Nat) : rsOf (db.shift k) l = rsOf db l := by
+  unfold rsOf
+  rw [samplesOf_shift, List.map_map]
+  rfl
+
+theorem getD_shift (es : List Int) (k : Int) (i : Nat) (hi : i < es.length) :
+    (es.map (· + k)).getD i 0 = es.getD i 0 + k :=
+  getD_map_of_lt (· + k) es i 0 0 hi
+
+theorem stretchOf_shift (pick : List Nat → Nat) (s j : α) (db : Loaded α) (k : Int) (l : Nat) :
+    stretchOf pick s j (db.shift k) l = (stretchOf pick s j db l).shift k := by
+  have hn1 : (zsOf db l).length = (esOf db l).length := by rw [zsOf_length, esOf_length]
+  have hn2 : (rsOf db l).length = (esOf db l).length := by rw [rsOf_length, esOf_length]
+  apply classified_ext
+  · rw [stretchOf_flags, esOf_shift, zsOf_shift, rsOf_shift]
+    show _ = List.map _ (stretchOf pick s j db l).flags
+    rw [stretchOf_flags, List.zipWith_map_left, List.map_zipWith]
+    rfl
+  · rw [stretchOf_interstorms, esOf_shift, zsOf_shift, rsOf_shift]
+    show _ = List.map _ (stretchOf pick s j db l).interstorms
+    rw [stretchOf_interstorms, List.map_map]
+    apply List.map_congr_left
+    intro ab hab
+    have := interstorms_range _ _ ab hab
+    rw [flagJump_length, wet_length] at this
+    show (_, _) = (_, _)
+    rw [getD_shift _ _ _ (by omega), getD_shift _ _ _ (by omega)]
+  · rw [stretchOf_pairs, esOf_shift, zsOf_shift, rsOf_shift]
+    show _ = List.map _ (stretchOf pick s j db l).pairs
+    rw [stretchOf_pairs, List.map_map]
+    apply List.map_congr_left
+    intro q hq
+    have := idxPairs_range pick s j _ _ _ q hq
+    show ((_, _), (_, _)) = ((_, _), (_, _))
+    rw [getD_shift _ _ _ (by omega), getD_shift _ _ _ (by omega), getD_shift _ _ _ (by omega),
+      getD_shift _ _ _ (by omega)]
+    show _ = ((_, _ + db.step + k), _)
+    rw [Int.add_right_comm]
+    rfl
+  · rw [stretchOf_strict, zsOf_shift, rsOf_shift]
+    rfl
+
+theorem classifyStretch_shift (pick : List Nat → Nat) (s j : α) (db : Loaded α) (k : Int) (l : Nat) :
+    classifyStretch pick s j (db.shift k) l =
+      (classifyStretch pick s j db l).map (fun c : Classified => c.shift k) := by
+  rw [classifyStretch_eq, classifyStretch_eq, stretchOf_shift, esOf_shift, uniformB_shift,
+    samplesOf_shift, List.isEmpty_map]
+  cases (samplesOf db l).isEmpty with
+  | true => rfl
+  | false =>
+    cases uniformB (esOf db l) with
+    | true => rfl
+    | false => rfl
+
+theorem classifyAll_shift (pick : List Nat → Nat) (s j : α) (db : Loaded α) (k : Int) :
+    classifyAll pick s j (db.shift k) =
+      (classifyAll pick s j db).map (fun c : Classified => c.shift k) := by
+  unfold classifyAll
+  rw [labelsOf_shift]
+  show (if (labelsOf db).isEmpty = true then _ else _) =
+    Except.map _ (if (labelsOf db).isEmpty = true then _ else _)
+  cases (labelsOf db).isEmpty with
+  | true => rfl
+  | false =>
+    exact foldlM_shift _ _ k (classifyStretch_shift pick s j db k) (labelsOf db)
+      { flags := [], interstorms := [], pairs := [], strict := true }
+
+/-! ### monotone epochs -/
+
+omit [Num α] in
+theorem esOf_pairwise (db : Loaded α) (h : wellFormedLoadedB db = true) (l : Nat) :
+    (esOf db l).Pairwise (· < ·) := samplesOf_epochs_pairwise db h l
+
+theorem pairwise_lt_getD_lt (l : List Int) (h : l.Pairwise (· < ·)) (i k : Nat) (hik : i < k)
+    (hk : k < l.length) : l.getD i 0 < l.getD k 0 := by
+  rw [List.getD_eq_getElem?_getD, List.getD_eq_getElem?_getD,
+    List.getElem?_eq_getElem (Nat.lt_trans hik hk), List.getElem?_eq_getElem hk]
+  exact (List.pairwise_iff_getElem.1 h) i k _ hk hik
+
+theorem pairwise_lt_getD_le (l : List Int) (h : l.Pairwise (· < ·)) (i k : Nat) (hik : i ≤ k)
+    (hk : k < l.length) : l.getD i 0 ≤ l.getD k 0 := by
+  rcases Nat.lt_or_eq_of_le hik with h1 | rfl
+  · exact Int.le_of_lt (pairwise_lt_getD_lt l h i k h1 hk)
+  · exact Int.le_refl _
+
+theorem stepped_succ (dt : Int) (l : List Int) (h : steppedB dt l = true) (i : Nat)
+    (hi : i + 1 < l.length) : l.getD (i + 1) 0 = l.getD i 0 + dt := by
+  rw [steppedB_getD dt l h (i + 1) hi, steppedB_getD dt l h i (by omega)]
+  have : ((i + 1 : Nat) : Int) * dt = (i : Int) * dt + dt := by
+    rw [Int.natCast_add, Int.add_mul]; simp
+  rw [this]
+  omega
+
+/-! ### dataset-level membership -/
+
+theorem mem_pairs_of_ok (pick : List Nat → Nat) (s j : α) (db : Loaded α) (c : Classified)
+    (hc : classifyAll pick s j db = .ok c) (p : (Int × Int) × (Int × Int)) :
+    p ∈ c.pairs ↔
+      ∃ l ∈ labelsOf db, ∃ q ∈ idxPairs pick (heavy s (rsOf db l)) (jumps j db.step (zsOf db l)),
+        p = (((esOf db l).getD q.1.1 0, (esOf db l).getD (q.1.2 - 1) 0 + db.step),
+             ((esOf db l).getD q.2.1 0, (esOf db l).getD q.2.2 0)) := by
+  obtain ⟨_, _, _, _, h, _⟩ := (classifyAll_ok_iff pick s j db c).1 hc
+  rw [h, List.mem_flatMap]
+  constructor
+  · rintro ⟨l, hl, hp⟩
+    rw [stretchOf_pairs, List.mem_map] at hp
+    obtain ⟨q, hq, rfl⟩ := hp
+    exact ⟨l, hl, q, hq, rfl⟩
+  · rintro ⟨l, hl, q, hq, rfl⟩
+    refine ⟨l, hl, ?_⟩
+    rw [stretchOf_pairs, List.mem_map]
+    exact ⟨q, hq, rfl⟩
+
+theorem mem_interstorms_of_ok (pick : List Nat → Nat) (s j : α) (db : Loaded α) (c : Classified)
+    (hc : classifyAll pick s j db = .ok c) (q : Int × Int) :
+    q ∈ c.interstorms ↔
+      ∃ l ∈ labelsOf db, ∃ a b,
+        (a, b) ∈ interstormRuns (flagJump j db.step (zsOf db l)) (wet (rsOf db l)) ∧
+        q = ((esOf db l).getD a 0, (esOf db l).getD (b - 1) 0) := by
+  obtain ⟨_, _, _, h, _, _⟩ := (classifyAll_ok_iff pick s j db c).1 hc
+  rw [h, List.mem_flatMap]
+  constructor
+  · rintro ⟨l, hl, hp⟩
+    rw [stretchOf_interstorms, List.mem_map] at hp
+    obtain ⟨⟨a, b⟩, hab, rfl⟩ := hp
+    exact ⟨l, hl, a, b, hab, rfl⟩
+  · rintro ⟨l, hl, a, b, hab, rfl⟩
+    refine ⟨l, hl, ?_⟩
+    rw [stretchOf_interstorms, List.mem_map]
+    exact ⟨(a, b), hab, rfl⟩
+
+theorem classifyAll_total (pick : List Nat → Nat) (s j : α) (db : Loaded α)
+    (h : wellFormedLoadedB db = true) : ∃ c, classifyAll pick s j db = .ok c := by
+  obtain ⟨_, _, h3, _, h5⟩ := (wellFormed_iff db).1 h
+  refine ⟨{ flags := _, interstorms := _, pairs := _, strict := _ },
+    (classifyAll_ok_iff pick s j db _).2 ⟨h3, ?_, rfl, rfl, rfl, rfl⟩⟩
+  intro l hl
+  exact ⟨samplesOf_ne_nil db h l hl, steppedB_uniformB db.step _ (h5 l hl)⟩
+
+/-! ### dataset-level pairing -/
+
+theorem pairs_nodup_of_ok (pick : List Nat → Nat) (s j : α) (db : Loaded α)
+    (h : wellFormedLoadedB db = true) (c : Classified) (hc : classifyAll pick s j db = .ok c) :
+    (c.pairs.map (·.1.1)).Nodup ∧ (c.pairs.map (·.2.1)).Nodup := by
+  obtain ⟨_, _, _, _, hp, _⟩ := (classifyAll_ok_iff pick s j db c).1 hc
+  have hlab : (labelsOf db).Pairwise (· ≠ ·) := labelsOf_nodup db
+  rw [hp, List.map_flatMap, List.map_flatMap]
+  -- a start epoch of a stretch is one of its sample epochs
+  have hmem1 : ∀ l x, x ∈ ((stretchOf pick s j db l).pairs.map (·.1.1)) → x ∈ esOf db l := by
+    intro l x hx
+    rw [stretchOf_pairs, List.map_map, List.mem_map] at hx
+    obtain ⟨q, hq, rfl⟩ := hx
+    have := idxPairs_range pick s j _ _ _ q hq
+    rw [rsOf_length, ← esOf_length] at this
+    exact getD_mem _ _ _ (by omega)
+  have hmem2 : ∀ l x, x ∈ ((stretchOf pick s j db l).pairs.map (·.2.1)) → x ∈ esOf db l := by
+    intro l x hx
+    rw [stretchOf_pairs, List.map_map, List.mem_map] at hx
+    obtain ⟨q, hq, rfl⟩ := hx
+    have := idxPairs_range pick s j _ _ _ q hq
+    rw [zsOf_length, ← esOf_length] at this
+    exact getD_mem _ _ _ (by omega)
+  have hcross : ∀ (f : Nat → List Int), (∀ l x, x ∈ f l → x ∈ esOf db l) →
+      (labelsOf db).Pairwise (fun l₁ l₂ => ∀ x ∈ f l₁, ∀ y ∈ f l₂, x ≠ y) := by
+    intro f hf
+    refine hlab.imp ?_
+    intro l₁ l₂ hne x hx y hy e
+    subst e
+    exact hne (samplesOf_epochs_disjoint db h l₁ l₂ x (hf _ _ hx) (hf _ _ hy))
+  constructor
+  · refine List.pairwise_flatMap.2 ⟨?_, hcross _ hmem1⟩
+    intro l _
+    rw [stretchOf_pairs, List.map_map]
+    have hnd := (idxPairs_nodup pick (heavy s (rsOf db l)) (jumps j db.step (zsOf db l))).1
+    have hnd' := List.pairwise_map.1 hnd
+    refine List.pairwise_map.2 (hnd'.imp_of_mem ?_)
+    intro q q' hq hq' hne e
+    apply hne
+    have r1 := idxPairs_range pick s j _ _ _ q hq
+    have r2 := idxPairs_range pick s j _ _ _ q' hq'
+    rw [rsOf_length, ← esOf_length] at r1 r2
+    have := pairwise_lt_getD_inj _ (esOf_pairwise db h l) q.1.1 q'.1.1 (by omega)
+      (by omega) e
+    exact trueRuns_start_inj' _ _ _ (idxPairs_sound pick _ _ q hq).1
+      (idxPairs_sound pick _ _ q' hq').1 this
+  · refine List.pairwise_flatMap.2 ⟨?_, hcross _ hmem2⟩
+    intro l _
+    rw [stretchOf_pairs, List.map_map]
+    have hnd := (idxPairs_nodup pick (heavy s (rsOf db l)) (jumps j db.step (zsOf db l))).2
+    have hnd' := List.pairwise_map.1 hnd
+    refine List.pairwise_map.2 (hnd'.imp_of_mem ?_)
+    intro q q' hq hq' hne e
+    apply hne
+    have r1 := idxPairs_range pick s j _ _ _ q hq
+    have r2 := idxPairs_range pick s j _ _ _ q' hq'
+    rw [zsOf_length, ← esOf_length] at r1 r2
+    have := pairwise_lt_getD_inj _ (esOf_pairwise db h l) q.2.1 q'.2.1 (by omega)
+      (by omega) e
+    exact trueRuns_start_inj' _ _ _ (idxPairs_sound pick _ _ q hq).2.1
+      (idxPairs_sound pick _ _ q' hq').2.1 this
+
+theorem pairs_overlap_of_ok (pick : List Nat → Nat) (s j : α) (db : Loaded α)
+    (h : wellFormedLoadedB db = true) (c : Classified) (hc : classifyAll pick s j db = .ok c)
+    (p : (Int × Int) × (Int × Int)) (hp : p ∈ c.pairs) :
+    p.1.1 < p.1.2 ∧ p.2.1 < p.2.2 ∧
+    ∃ t, p.1.1 ≤ t ∧ t + db.step ≤ p.1.2 ∧ p.2.1 ≤ t ∧ t + db.step ≤ p.2.2 := by
+  obtain ⟨l, hl, q, hq, rfl⟩ := (mem_pairs_of_ok pick s j db c hc p).1 hp
+  obtain ⟨hstep, _, _, _, h5⟩ := (wellFormed_iff db).1 h
+  have hst : steppedB db.step (esOf db l) = true := h5 l hl
+  have hpw := esOf_pairwise db h l
+  have r := idxPairs_range pick s j _ _ _ q hq
+  rw [rsOf_length, ← esOf_length, zsOf_length, ← esOf_length] at r
+  obtain ⟨i, i1, i2, i3, i4⟩ := (overlaps_iff' _ _).1 (idxPairs_sound pick _ _ q hq).2.2
+  have e1 := pairwise_lt_getD_le _ hpw q.1.1 (q.1.2 - 1) (by omega) (by omega)
+  have e2 := pairwise_lt_getD_lt _ hpw q.2.1 q.2.2 (by omega) (by omega)
+  have e3 := pairwise_lt_getD_le _ hpw q.1.1 i (by omega) (by omega)
+  have e4 := pairwise_lt_getD_le _ hpw i (q.1.2 - 1) (by omega) (by omega)
+  have e5 := pairwise_lt_getD_le _ hpw q.2.1 i (by omega) (by omega)
+  have e6 := pairwise_lt_getD_le _ hpw (i + 1) q.2.2 (by omega) (by omega)
+  have e7 := stepped_succ db.step _ hst i (by omega)
+  refine ⟨?_, e2, (esOf db l).getD i 0, e3, ?_, e5, ?_⟩
+  · show (esOf db l).getD q.1.1 0 < (esOf db l).getD (q.1.2 - 1) 0 + db.step
+    omega
+  · show _ ≤ (esOf db l).getD (q.1.2 - 1) 0 + db.step
+    omega
+  · show _ ≤ (esOf db l).getD q.2.2 0
+    omega
 
 end Spowtd
